@@ -66,9 +66,9 @@ def enumerate_states(tier, seed):
     meta["bound_completed"] += " + clipping family (large/unit sizes x far placements x 6 axis directions: %d scenes)" % len(clip)
     if tier == "thorough":
         # deviation bound 3 restricted to the reduced alphabets (all triples of non-default factors)
-        extra = enumerate_dev3(seed, full=True)
+        extra = enumerate_dev3(seed, full=True, alph=MED)
         states += extra
-        meta["bound_completed"] += " + deviation bound 3 on reduced alphabets (%d extra scenes)" % len(extra)
+        meta["bound_completed"] += " + complete deviation bound 3 over medium alphabets (12 orientations per body, all placements and directions: %d extra scenes)" % len(extra)
     else:
         extra = enumerate_dev3(seed, full=False)
         states += extra
@@ -80,16 +80,21 @@ RED = {"sa": [0, 1, 2, 3], "sb": [0, 1, 2, 3], "oa": [0, 5, 24, 26], "ob": [0, 9
        "ma": [0, 1], "mb": [0, 1], "pl": [0, 1, 3, 7, 9, 10, 13], "u": [0, 1, 10, 20, 28]}
 
 
-def enumerate_dev3(seed, full):
-    """Triples of non-default coordinates over reduced alphabets."""
+MED = {"sa": [0, 1, 2, 3], "sb": [0, 1, 2, 3], "oa": [0, 3, 5, 9, 13, 17, 24, 25, 28, 29, 30, 31], "ob": [0, 2, 7, 11, 16, 21, 26, 27, 28, 29, 30, 31],
+       "fa": [0, 1, 2, 3], "ma": [0, 1], "mb": [0, 1], "pl": list(range(16)), "u": list(range(31))}
+
+
+def enumerate_dev3(seed, full, alph=None):
+    """Triples of non-default coordinates over reduced alphabets (thorough: medium alphabets)."""
     out = []
+    RED_ = alph or RED
     names = gs.COORDS
     pairs = list(itertools.product(sc.TYPES, sc.TYPES))
     n_slices = 1 if full else 25
     k = 0
     for ta, tb in pairs:
         for pos in itertools.combinations(range(len(names)), 3):
-            rngs = [[v for v in RED[names[p]] if v != 0] for p in pos]
+            rngs = [[v for v in RED_[names[p]] if v != 0] for p in pos]
             for vals in itertools.product(*rngs):
                 k += 1
                 if not full and (k % n_slices) != (seed % n_slices):
